@@ -21,6 +21,16 @@ open Dos Dos.Share
 variable {F : Type} [Field F] [DecidableEq F]
 variable {G : Type} [AddCommGroup G] [Module F G] [DecidableEq G]
 
+/-! ### 0. facts regenerated from /repo on every run -/
+
+/-- the evaluation point of share index `i` is `i + 1` at all four sites of `share/poly.go`
+(`PriPoly.Eval`, `PubPoly.Eval`, `xScalar`, `RecoverCommit`), and the group orders the code
+uses are the alt_bn128 and ed25519 ones the driver computes with. -/
+theorem c09_code_facts :
+    Gen.shareEvalOffsets = [1, 1, 1, 1]
+    ∧ Share.bn256Order = 21888242871839275222246405745257275088548364400416034343698204186575808495617
+    ∧ Share.ed25519Order = 2 ^ 252 + 27742317777372353535851937790883648493 := by decide
+
 /-! ### 1. reconstruction -/
 
 /-- **Any `t` distinct shares reconstruct the secret**, whatever else is in the slice: `shares`
